@@ -2,6 +2,8 @@ package rules
 
 import (
 	"fmt"
+	"go/ast"
+	"regexp"
 	"strings"
 
 	"pigeonverif/internal/load"
@@ -338,6 +340,15 @@ func substAliases(p bpath, isRef func(v string) bool) bpath {
 		if e.Kind == "set" {
 			if i := strings.Index(e.Text, "="); i > 0 && dollarRe.FindString(e.Text[:i]) == e.Text[:i] {
 				name, v := e.Text[:i], e.Text[i+1:]
+				if len(env) > 0 && strings.Contains(v, "$") {
+					v = dollarRe.ReplaceAllStringFunc(v, func(m string) string {
+						if w, ok := env[m]; ok {
+							return w
+						}
+						return m
+					})
+					ne.Text = name + "=" + v
+				}
 				if isRef(v) {
 					env[name] = v
 				} else {
@@ -393,7 +404,7 @@ func optimizerMergeCases(c *Ctx, g *load.G) {
 	cases := []mcase{
 		{"lit,lit", []string{"ok(" + l0 + ")", "ok(" + l1 + ")"},
 			[]string{"len([]rune(" + l0 + ".Val))==1", "len([]rune(" + l1 + ".Val))==1", l0 + ".IgnoreCase==" + l1 + ".IgnoreCase"},
-			[]string{"=CharClassMatcher{Chars:append([]rune(" + l0 + ".Val),[]rune(" + l1 + ".Val)...),IgnoreCase:" + l0 + ".IgnoreCase,posValue:" + l0 + ".posValue}", P + "=&"}},
+			[]string{P + "=&CharClassMatcher{Chars:append([]rune(" + l0 + ".Val),[]rune(" + l1 + ".Val)...),IgnoreCase:" + l0 + ".IgnoreCase,posValue:" + l0 + ".posValue}"}},
 		{"lit,class", []string{"ok(" + l0 + ")", "ok(" + c1 + ")"},
 			[]string{"len([]rune(" + l0 + ".Val))==1", l0 + ".IgnoreCase==" + c1 + ".IgnoreCase", "!" + c1 + ".Inverted"},
 			[]string{c1 + ".Chars=append(" + c1 + ".Chars,[]rune(" + l0 + ".Val)...)", P + "=" + c1}},
@@ -430,12 +441,19 @@ func optimizerMergeCases(c *Ctx, g *load.G) {
 			if !all {
 				continue
 			}
-			// the effect of this very case?
+			// the effect of this very case? (stored values read through the locals that carry them)
 			eff := true
 			for _, ef := range mc.effects {
 				found := false
-				for _, e := range p {
-					if e.Kind == "set" && strings.Contains(e.Text, ef) {
+				for i, e := range p {
+					if e.Kind != "set" {
+						continue
+					}
+					txt := e.Text
+					if k := indexTop(txt, "="); k > 0 {
+						txt = txt[:k+1] + resolveChain(p, i, txt[k+1:])
+					}
+					if strings.Contains(txt, ef) {
 						found = true
 					}
 				}
@@ -493,4 +511,219 @@ func optimizerMergeCases(c *Ctx, g *load.G) {
 		}
 		r.Check(len(badS) == 0 && n > 0, "C09-b", "G.ast.optimize:literal-concatenation-guard", "", g.Where(sc.Pos()), "adjacent literals are concatenated only when both are literals with equal IgnoreCase", strings.Join(uniq(badS), "; "))
 	}
+}
+
+var chainRe = regexp.MustCompile(`^(&?)(\$[0-9]+)$`)
+
+// resolveChain reads a stored value through the numbered locals that carry it: `$4` with `$4=&$21` and
+// `$21=T{…}` set earlier on the path is `&T{…}`.
+func resolveChain(p bpath, upto int, v string) string {
+	for depth := 0; depth < 4; depth++ {
+		m := chainRe.FindStringSubmatch(v)
+		if m == nil {
+			return v
+		}
+		val := ""
+		for i := upto - 1; i >= 0; i-- {
+			if p[i].Kind == "set" && strings.HasPrefix(p[i].Text, m[2]+"=") {
+				val = strings.TrimPrefix(p[i].Text, m[2]+"=")
+				upto = i
+				break
+			}
+		}
+		if val == "" {
+			return v
+		}
+		if m[1] == "&" && strings.HasPrefix(val, "&") {
+			return v
+		}
+		v = m[1] + val
+	}
+	return v
+}
+
+var strideRe = regexp.MustCompile(`^for ;(\$[0-9]+)<len\((.+)\.Ranges\);(\$[0-9]+)\+=2$`)
+
+// cleanupKeepsMembers (C09-f): duplicate removal in a merged class, read off the normalised paths of the function that
+// rebuilds the lists (cleanupCharClassMatcher or the helper it delegates to): each list is replaced by a local list
+// that received, in a loop over the old list, every member not seen before - the member itself for Chars and
+// UnicodeClasses, the pair (Ranges[i], Ranges[i+1]) for Ranges, remembered under a key made of both ends - or by nil
+// when nothing was kept. Wherever a stride-2 loop reads the pairs, the low end comes before the high end.
+func cleanupKeepsMembers(c *Ctx, g *load.G, cf *ast.FuncDecl) string {
+	ap := g.Pkg("ast")
+	var bad []string
+	nRebuild := 0
+	pairLoops := 0
+	for _, fd := range withHelpers(ap, cf, "Walk", "cloneExpr") {
+		paths := c.astNorm().normPaths(fd)
+		rebuilds := false
+		for _, p := range paths {
+			for _, e := range p {
+				if e.Kind == "set" && regexp.MustCompile(`^[^=]+\.Chars=`).MatchString(e.Text) {
+					rebuilds = true
+				}
+			}
+		}
+		// pair order in every stride-2 loop of the function
+		for _, p := range paths {
+			for i, e := range p {
+				if e.Kind != "loop" {
+					continue
+				}
+				m := strideRe.FindStringSubmatch(e.Text)
+				if m == nil || m[1] != m[3] {
+					continue
+				}
+				pairLoops++
+				_, hi := loopSpan(p[i:], e.Text)
+				// the ends read inside the loop, in order: every use of a pair reads the low end, then the high end
+				lo, hiEnd := m[2]+".Ranges["+m[1]+"]", m[2]+".Ranges["+m[1]+"+1]"
+				seq := ""
+				for _, e2 := range p[i+1 : i+hi] {
+					if e2.Kind != "call" && e2.Kind != "set" {
+						continue
+					}
+					// a call event repeats the text of the calls nested in it: read the outermost writes and stores only
+					if e2.Kind == "call" && !strings.Contains(e2.Text, "WriteString(") && !strings.Contains(e2.Text, "WriteRune(") && !strings.Contains(e2.Text, "Fprint") {
+						continue
+					}
+					txt := e2.Text
+					for k := 0; k < len(txt); {
+						switch {
+						case strings.HasPrefix(txt[k:], hiEnd):
+							seq += "H"
+							k += len(hiEnd)
+						case strings.HasPrefix(txt[k:], lo):
+							seq += "L"
+							k += len(lo)
+						default:
+							k++
+						}
+					}
+				}
+				if seq == "" || strings.ReplaceAll(seq, "LH", "") != "" {
+					bad = append(bad, "a loop over the range pairs reads the ends in the order "+seq+", expected the low end and then the high end each time a pair is used")
+				}
+			}
+		}
+		if !rebuilds {
+			continue
+		}
+		for _, p := range paths {
+			var X string
+			for _, e := range p {
+				if e.Kind == "set" {
+					if k := strings.Index(e.Text, ".Chars="); k > 0 && !strings.Contains(e.Text[:k], "=") {
+						X = e.Text[:k]
+					}
+				}
+			}
+			if X == "" {
+				continue // the node is not a class: nothing to do on this path
+			}
+			nRebuild++
+			for _, field := range []string{"Chars", "Ranges", "UnicodeClasses"} {
+				v, iv := lastSet(p, X+"."+field)
+				if iv < 0 {
+					bad = append(bad, "the list "+field+" is not rebuilt on a path")
+					continue
+				}
+				if v == "nil" {
+					continue // the other arm installs the rebuilt list; an empty result is stored as nil
+				}
+				if dollarRe.FindString(v) != v {
+					bad = append(bad, field+" is replaced by "+abbreviate(v)+", not by the list of kept members")
+					continue
+				}
+				// every append to the kept list
+				nApp := 0
+				for i, e := range p[:iv] {
+					if e.Kind != "set" || !strings.HasPrefix(e.Text, v+"=append("+v+",") {
+						continue
+					}
+					nApp++
+					args := splitTop(strings.TrimSuffix(strings.TrimPrefix(e.Text, v+"=append("), ")"), ",")[1:]
+					// the enclosing loop and the member it stands at
+					loop := ""
+					depth := 0
+					for k := i; k >= 0 && loop == ""; k-- {
+						switch p[k].Kind {
+						case "endloop":
+							depth++
+						case "loop":
+							if depth == 0 {
+								loop = p[k].Text
+							} else {
+								depth--
+							}
+						}
+					}
+					var member []string
+					switch {
+					case loop == "range "+X+"."+field && field != "Ranges":
+						member = []string{X + "." + field + "[#1]"}
+					case strideRe.MatchString(loop) && field == "Ranges":
+						m := strideRe.FindStringSubmatch(loop)
+						if m[2] == X {
+							member = []string{X + ".Ranges[" + m[1] + "]", X + ".Ranges[" + m[1] + "+1]"}
+						}
+					}
+					if member == nil || strings.Join(args, ",") != strings.Join(member, ",") {
+						bad = append(bad, "the kept list of "+field+" receives "+abbreviate(strings.Join(args, ","))+" in `"+loop+"`, expected the member the loop stands at")
+						continue
+					}
+					// remembered and tested under a key made of the whole member
+					keyOK := false
+					for _, f := range p[:i].facts() {
+						if strings.HasPrefix(f, "!ok($") && strings.HasSuffix(f, "])") {
+							key := f[strings.Index(f, "[")+1 : len(f)-2]
+							all := true
+							pos := -1
+							for _, mem := range member {
+								q := strings.Index(key, mem)
+								if q < 0 || q < pos {
+									all = false
+								}
+								pos = q
+							}
+							if all {
+								keyOK = true
+							}
+						}
+					}
+					if !keyOK {
+						bad = append(bad, "a member of "+field+" is kept without the not-seen-before test on the member itself")
+					}
+				}
+				_ = nApp
+			}
+			// a member that was seen before is not kept, one that was not seen is
+			for _, field := range []string{"Chars", "UnicodeClasses"} {
+				lo, hi := loopSpan(p, "range "+X+"."+field)
+				if lo < 0 {
+					bad = append(bad, "no loop over "+field)
+					continue
+				}
+				seen, kept := false, false
+				for _, e := range p[lo:hi] {
+					if e.Kind == "+" && strings.HasPrefix(e.Text, "ok($") {
+						seen = true
+					}
+					if e.Kind == "set" && strings.Contains(e.Text, "=append(") {
+						kept = true
+					}
+				}
+				if seen == kept && hi > lo+1 {
+					bad = append(bad, "in the loop over "+field+" a member is kept although it was seen, or dropped although it was not")
+				}
+			}
+		}
+	}
+	if nRebuild == 0 {
+		bad = append(bad, "no function rebuilds the member lists")
+	}
+	if pairLoops < 2 {
+		bad = append(bad, "the stride-2 loops over the range pairs (duplicate removal, text) were not found")
+	}
+	return strings.Join(uniq(bad), "; ")
 }
